@@ -6,7 +6,13 @@ s = open(p).read()
 def gen(cmd):
     out = subprocess.run(cmd, capture_output=True, text=True).stdout
     return "\n".join(l for l in out.splitlines() if not l.startswith("WARNING"))
-blocks = {"SIZES": gen(["/verif/tools/design_table.py"]), "RESULTS": gen(["/verif/tools/results_table.py"])}
+import json
+kf = json.load(open("/verif/known_findings.json"))["findings"]
+fixed = ["| %s | %s | %s | %s |" % (e["id"], e["property"], e["commit"], e["what"].replace("|", "/")) for e in kf if e["status"] == "fixed"]
+opened = ["| %s | %s | %s / %s | %s |" % (e["id"], e["property"], e["site"], e["clause"], e["what"].replace("|", "/")) for e in kf if e["status"] == "open"]
+blocks = {"SIZES": gen(["/verif/tools/design_table.py"]), "RESULTS": gen(["/verif/tools/results_table.py"]),
+          "FIXED": "| finding | reported by | /repo commit | defect |\n|---|---|---|---|\n" + "\n".join(fixed),
+          "OPEN": "| finding | property | site / clause | defect (witness predicate in mc/findings.py) |\n|---|---|---|---|\n" + "\n".join(opened)}
 for k, v in blocks.items():
     b, e = "<!-- BEGIN %s -->" % k, "<!-- END %s -->" % k
     if b not in s:
